@@ -54,6 +54,37 @@ type loopRun struct {
 func (vc *FuncVC) newFrame(fn *ssa.Function, fc *FuncContract, cf *ContractFile, prefix string, depth int) *Frame {
 	fr := &Frame{vc: vc, fn: fn, fc: fc, cf: cf, vals: map[ssa.Value]Val{}, prefix: prefix, calls: map[string]int{}, depth: depth}
 	fr.escapes = map[*ssa.Alloc]bool{}
+	// call-site ordinals: k-th call of a callee in source order
+	type cs struct {
+		in  ssa.Instruction
+		pos token.Pos
+		idx int
+	}
+	byName := map[string][]cs{}
+	n := 0
+	for _, b := range fn.Blocks {
+		for _, in := range b.Instrs {
+			if c, ok := in.(ssa.CallInstruction); ok {
+				name := calleeShortName(c.Common())
+				if name != "" {
+					byName[name] = append(byName[name], cs{in, in.Pos(), n})
+					n++
+				}
+			}
+		}
+	}
+	fr.callOrd = map[ssa.Instruction]int{}
+	for _, l := range byName {
+		sort.SliceStable(l, func(i, j int) bool {
+			if l[i].pos != l[j].pos {
+				return l[i].pos < l[j].pos
+			}
+			return l[i].idx < l[j].idx
+		})
+		for i, c := range l {
+			fr.callOrd[c.in] = i + 1
+		}
+	}
 	var onlyAccess func(v ssa.Value, self ssa.Value) bool
 	onlyAccess = func(v ssa.Value, self ssa.Value) bool {
 		for _, r := range *v.Referrers() {
@@ -981,6 +1012,21 @@ func (fr *Frame) binop(x *ssa.BinOp, st *State, reach Term) {
 		}
 		fr.vals[x] = scalar(x.Type(), vc.sc.Def("t", r))
 	case token.AND, token.OR, token.XOR, token.AND_NOT:
+		if enc.Mode == ModeInt {
+			// operands occupying disjoint bit ranges: | and ^ are +, & is 0
+			hx, lx := bitsOf(x.X, 0)
+			hy, ly := bitsOf(x.Y, 0)
+			if lx >= hy || ly >= hx {
+				switch x.Op {
+				case token.OR, token.XOR:
+					fr.vals[x] = scalar(x.Type(), vc.sc.Def("t", enc.add(ta, tb)))
+					return
+				case token.AND:
+					fr.vals[x] = scalar(x.Type(), intLit64(0))
+					return
+				}
+			}
+		}
 		fr.vals[x] = scalar(x.Type(), vc.sc.Def("t", enc.bitop(x.Op, ta, tb, xt)))
 	case token.SHL, token.SHR:
 		_, ysigned, _ := intInfo(x.Y.Type())
@@ -1309,4 +1355,144 @@ func (fr *Frame) updatePath(v Val, path []pathElem, nv Val) Val {
 	}
 	fr.vc.unsupportedf("update path into %T", v)
 	return nil
+}
+
+
+// bitsOf bounds the bits a non-negative SSA value can occupy: value < 2^hi and
+// value is a multiple of 2^lo. Derived from the expression shape only.
+func bitsOf(v ssa.Value, depth int) (hi, lo int) {
+	w, signed, ok := intInfo(v.Type())
+	if !ok {
+		return 64, 0
+	}
+	def := func() (int, int) {
+		if signed {
+			return 64, 0
+		}
+		return w, 0
+	}
+	if depth > 12 {
+		return def()
+	}
+	constOf := func(c ssa.Value) (uint64, bool) {
+		k, ok := c.(*ssa.Const)
+		if !ok || k.Value == nil {
+			return 0, false
+		}
+		u, exact := constantUint64(k)
+		return u, exact
+	}
+	switch x := v.(type) {
+	case *ssa.Const:
+		if u, ok := constOf(x); ok {
+			if u == 0 {
+				return 0, 64
+			}
+			return bitLen64(u), trailingZeros64(u)
+		}
+	case *ssa.Convert:
+		_, fs, fok := intInfo(x.X.Type())
+		if fok && !fs {
+			h, l := bitsOf(x.X, depth+1)
+			dh, _ := def()
+			if h > dh {
+				h = dh
+			}
+			return h, l
+		}
+	case *ssa.BinOp:
+		switch x.Op {
+		case token.SHL:
+			if c, ok := constOf(x.Y); ok && c < 64 {
+				h, l := bitsOf(x.X, depth+1)
+				dh, _ := def()
+				h += int(c)
+				if h > dh {
+					// may wrap: an overflow obligation covers it in int mode, keep the type bound
+					h = dh
+				}
+				return h, l + int(c)
+			}
+		case token.SHR:
+			if c, ok := constOf(x.Y); ok && c < 64 && !signed {
+				h, l := bitsOf(x.X, depth+1)
+				h -= int(c)
+				if h < 0 {
+					h = 0
+				}
+				l -= int(c)
+				if l < 0 {
+					l = 0
+				}
+				return h, l
+			}
+		case token.AND:
+			hx, lx := bitsOf(x.X, depth+1)
+			hy, ly := bitsOf(x.Y, depth+1)
+			if hy < hx {
+				hx = hy
+			}
+			if ly > lx {
+				lx = ly
+			}
+			return hx, lx
+		case token.OR, token.XOR:
+			hx, lx := bitsOf(x.X, depth+1)
+			hy, ly := bitsOf(x.Y, depth+1)
+			if hy > hx {
+				hx = hy
+			}
+			if ly < lx {
+				lx = ly
+			}
+			return hx, lx
+		}
+	}
+	return def()
+}
+
+func constantUint64(k *ssa.Const) (uint64, bool) {
+	if k.Value == nil {
+		return 0, false
+	}
+	bi, ok := new(bigInt).SetString(k.Value.ExactString(), 10)
+	if !ok || bi.Sign() < 0 || !bi.IsUint64() {
+		return 0, false
+	}
+	return bi.Uint64(), true
+}
+
+func bitLen64(u uint64) int {
+	n := 0
+	for u != 0 {
+		n++
+		u >>= 1
+	}
+	return n
+}
+
+func trailingZeros64(u uint64) int {
+	if u == 0 {
+		return 64
+	}
+	n := 0
+	for u&1 == 0 {
+		n++
+		u >>= 1
+	}
+	return n
+}
+
+
+func calleeShortName(c *ssa.CallCommon) string {
+	if c.IsInvoke() {
+		return c.Method.Name()
+	}
+	if _, ok := c.Value.(*ssa.Builtin); ok {
+		return ""
+	}
+	if f := c.StaticCallee(); f != nil {
+		return f.Name()
+	}
+	return c.Value.Name()
 }
